@@ -433,21 +433,34 @@ void thrift_skip(thrift_decoder_t* dec, thrift_type_t type) {
         case THRIFT_TYPE_SET: {
             thrift_type_t elem_type;
             int32_t count;
+            /* list<list<...>> costs one byte per level: bound the recursion */
+            if (dec->container_depth >= THRIFT_MAX_NESTING) {
+                set_error(dec, CARQUET_ERROR_THRIFT_DECODE, "Container nesting too deep");
+                break;
+            }
             thrift_read_list_begin(dec, &elem_type, &count);
+            dec->container_depth++;
             for (int32_t i = 0; i < count && dec->status == CARQUET_OK; i++) {
                 skip_container_element(dec, elem_type);
             }
+            dec->container_depth--;
             break;
         }
 
         case THRIFT_TYPE_MAP: {
             thrift_type_t key_type, value_type;
             int32_t count;
+            if (dec->container_depth >= THRIFT_MAX_NESTING) {
+                set_error(dec, CARQUET_ERROR_THRIFT_DECODE, "Container nesting too deep");
+                break;
+            }
             thrift_read_map_begin(dec, &key_type, &value_type, &count);
+            dec->container_depth++;
             for (int32_t i = 0; i < count && dec->status == CARQUET_OK; i++) {
                 skip_container_element(dec, key_type);
                 skip_container_element(dec, value_type);
             }
+            dec->container_depth--;
             break;
         }
 
